@@ -608,15 +608,20 @@ Proof.
   destruct (eq_step a b) as [[v a'] b']. simpl. tauto.
 Qed.
 
+Lemma bool_iff (x y : bool) (P : Prop) : (x = true <-> P) -> (y = true <-> P) -> x = y.
+Proof.
+  intros [H1 H1'] [H2 H2']. destruct x, y; try reflexivity.
+  - symmetry. apply H2'. apply H1. reflexivity.
+  - apply H1'. apply H2. reflexivity.
+Qed.
+
 Lemma eq_impl_by_content a b a' b' :
   coherent a -> coherent b -> coherent a' -> coherent b' -> cont a' = cont a -> cont b' = cont b ->
   eq_impl a' b' = eq_impl a b.
 Proof.
   intros Ca Cb Ca' Cb' Ea Eb.
   pose proof (eq_iff_content_lemma a b Ca Cb) as H1. pose proof (eq_iff_content_lemma a' b' Ca' Cb') as H2.
-  rewrite Ea, Eb in H2. destruct (eq_impl a b), (eq_impl a' b'); try reflexivity.
-  - destruct H1 as [H1 _]. destruct H2 as [_ H2]. symmetry. apply H2. apply H1. reflexivity.
-  - destruct H1 as [_ H1]. destruct H2 as [H2 _]. apply H1. apply H2. reflexivity.
+  rewrite Ea, Eb in H2. exact (bool_iff _ _ _ H2 H1).
 Qed.
 
 Theorem eq_refl_lemma a : coherent a -> eq_impl a a = true.
@@ -625,9 +630,8 @@ Proof. intros C. apply eq_iff_content_lemma; [exact C|exact C|reflexivity]. Qed.
 Theorem eq_sym_lemma a b : coherent a -> coherent b -> eq_impl a b = eq_impl b a.
 Proof.
   intros Ca Cb. pose proof (eq_iff_content_lemma a b Ca Cb) as H1. pose proof (eq_iff_content_lemma b a Cb Ca) as H2.
-  destruct (eq_impl a b), (eq_impl b a); try reflexivity.
-  - destruct H1 as [H1 _]. destruct H2 as [_ H2]. symmetry. apply H2. symmetry. apply H1. reflexivity.
-  - destruct H1 as [_ H1]. destruct H2 as [H2 _]. apply H1. symmetry. apply H2. reflexivity.
+  apply (bool_iff _ _ (cont a = cont b)); [exact H1|]. split; [intros E; symmetry; apply H2; exact E|].
+  intros E. apply H2. symmetry. exact E.
 Qed.
 
 Theorem eq_trans_lemma a b c : coherent a -> coherent b -> coherent c ->
@@ -688,11 +692,11 @@ Lemma step_inv w o : world_ok w ->
   forall k, k < length w -> cont (wget (step w o) k) = cont (wget w k).
 Proof.
   intros W. destruct o as [i a|i j|i]; simpl.
-  - destruct (Nat.ltb i (length w)) eqn:Hi; [|repeat split; auto].
+  - destruct (Nat.ltb i (length w)) eqn:Hi; [|split; [exact W|split; [lia|intros; reflexivity]]].
     apply Nat.ltb_lt in Hi. destruct (access_coherent a (wget w i) (W i Hi)) as [C E].
     split; [apply world_ok_upd; assumption|]. split; [rewrite upd_length; lia|].
     intros k _. apply cont_upd. exact E.
-  - destruct (Nat.ltb i (length w) && Nat.ltb j (length w)) eqn:Hij; [|repeat split; auto].
+  - destruct (Nat.ltb i (length w) && Nat.ltb j (length w)) eqn:Hij; [|split; [exact W|split; [lia|intros; reflexivity]]].
     apply andb_true_iff in Hij. destruct Hij as [Hi Hj]. apply Nat.ltb_lt in Hi. apply Nat.ltb_lt in Hj.
     pose proof (eq_step_spec (wget w i) (wget w j) (W i Hi) (W j Hj)) as S.
     destruct (eq_step (wget w i) (wget w j)) as [[v a'] b']. destruct S as (_ & Ca & Cb & Ea & Eb).
@@ -704,7 +708,7 @@ Proof.
       split; [rewrite !upd_length; lia|].
       intros k _. rewrite cont_upd; [apply cont_upd; exact Eb|].
       rewrite wget_upd_neq by (intros X; apply Eij; symmetry; exact X). exact Ea.
-  - destruct (Nat.ltb i (length w)) eqn:Hi; [|repeat split; auto].
+  - destruct (Nat.ltb i (length w)) eqn:Hi; [|split; [exact W|split; [lia|intros; reflexivity]]].
     apply Nat.ltb_lt in Hi. destruct (copy_coherent (wget w i) (W i Hi)) as [C _].
     split.
     + intros k Hk. rewrite app_length in Hk. simpl in Hk. unfold wget.
@@ -719,7 +723,7 @@ Lemma run_ops_inv ops : forall w, world_ok w ->
   forall k, k < length w -> cont (wget (run_ops ops w) k) = cont (wget w k).
 Proof.
   induction ops as [|o ops IH]; intros w W; simpl.
-  - repeat split; auto.
+  - split; [exact W|split; [lia|intros; reflexivity]].
   - destruct (step_inv w o W) as (W1 & L1 & E1). destruct (IH (step w o) W1) as (W2 & L2 & E2).
     split; [exact W2|]. split; [lia|]. intros k Hk. rewrite E2 by lia. apply E1. exact Hk.
 Qed.
@@ -753,7 +757,7 @@ Qed.
 (* ================================================================== the defect that was repaired *)
 Definition old_t : table := mkT [10;20]%Z [1;2;3]%Z [[5;0;7];[0;0;2]]%Z None None 1%Z.
 (* caller-made CSR holding an explicit zero at (0,1), indices of row 0 unsorted *)
-Definition old_a : state := mkS old_t (mkR CSR 3 [[(2,7);(1,0);(0,5)]; [(2,2)]]%Z) DT_FLOAT.
+Definition old_a : state := mkS old_t (mkR CSR 3 [[(2,7%Z);(1,0%Z);(0,5%Z)]; [(2,2%Z)]]) DT_FLOAT.
 Definition old_b : state := fresh old_t.
 
 Theorem eq_old_refuted_lemma :
